@@ -45,6 +45,8 @@ def op_payload(op, seq):
         return ("ctrl", ("CMD SETFH 0 0 %d %d %d %d\0" % (F3, F3, F4, F4)).encode(), 1)
     if op == "mstune":
         return ("ctrl", ("CMD RXTUNE %d\0" % F1).encode(), 1)
+    if op.startswith("msfmt"):
+        return ("ctrl", ("CMD SETFORMAT %s\0" % op[5:]).encode(), 1)
     if op == "msrssi":
         return ("ctrl", b"CMD FAKE_RSSI -75 2\0", 1)
     if op == "mstoa":
@@ -318,6 +320,9 @@ def metadata_scenarios(tier):
     for op in ("msrssi", "mstoa", "msci", "msta"):
         out.append(Scenario([op], q))
         out.append(Scenario([op], q, prefix="v1"))
+    out.append(Scenario(["msfmt1"], q))
+    out.append(Scenario(["msfmt0"], q, prefix="v1"))
+    out.append(Scenario(["msfmt1", "msfmt0"], q))
     return out
 
 
